@@ -657,7 +657,11 @@ func replicaHaltCatchUpScenario(rep *core.Report, mode string, layout sim.Layout
 		return
 	}
 	rn.Client.Resume()
+	released := false
 	defer func() {
+		if released {
+			return
+		}
 		select {
 		case herr := <-haltDone:
 			if herr != nil {
@@ -695,6 +699,67 @@ func replicaHaltCatchUpScenario(rep *core.Report, mode string, layout sim.Layout
 	wr.evMu.Unlock()
 	sort.Strings(entries)
 	rep.Extra["replica_halt_catch_up_"+mode] = map[string]any{"internal_page_writes": n, "entry_points": entries, "reader_held": held}
+	// ---- second part: the lock is released by the connection that holds it while ANOTHER connection of the
+	// same node has a write transaction open (journal written, a page changed). Giving the lock back runs the
+	// node's recovery (journal rollback / checkpoint), which changes the database file: it waits for the
+	// open transaction like every internal writer.
+	if mode == "rollback" {
+		select {
+		case herr := <-haltDone:
+			if herr != nil {
+				rep.Nonconf("replica (%s): AcquireRemoteHaltLock: %v", mode, herr)
+				released = true
+				return
+			}
+		case <-time.After(40 * time.Second):
+			rep.Nonconf("replica (%s): AcquireRemoteHaltLock did not return", mode)
+			released = true
+			return
+		}
+		released = true
+		c2 := rn.Node.Connect(dbName, 99)
+		pg2 := sim.NewPager(c2, layout, sim.PagerOpts{Sector: 512, Busy: 3 * time.Second})
+		if im, ierr := sim.StableDiskImage(rn.Node.DBDir(dbName), layout.PageSize); ierr == nil {
+			pg2.Ref, _ = layout.ModelOf(im)
+		}
+		pl := sim.Plan{Kind: "j", Ns: len(pg2.Ref), M: []int{1}, Out: "rb_spill", Fin: "DELETE", V: 99}
+		var terr error
+		for _, f := range []func() error{func() error { return pg2.BeginJ(pl) }, pg2.JCreate, pg2.JSync, func() error { return pg2.JPage(1) }} {
+			if terr == nil {
+				terr = f()
+			}
+		}
+		if terr != nil {
+			rep.Nonconf("replica (%s): open transaction under the halt lock: %v", mode, terr)
+			_ = wr.db.ReleaseRemoteHaltLock(context.Background(), 777)
+			return
+		}
+		base := atomic.LoadInt64(&wr.hookCalls)
+		relDone := make(chan error, 1)
+		go func() { relDone <- wr.db.ReleaseRemoteHaltLock(context.Background(), 777) }()
+		core.Beat("real:halt-release-blocked")
+		time.Sleep(200 * time.Millisecond)
+		rep.Eval(2)
+		rep.Case("halt-release-with-open-transaction/"+mode, true)
+		_, jerr := os.Stat(wr.db.JournalPath())
+		if n := atomic.LoadInt64(&wr.hookCalls) - base; n != 0 || jerr != nil {
+			rep.Violate("C11.enter-only-when-free", "halt-release-recovery-proceeded-while-client-holds/RESERVED/"+mode,
+				map[string]any{"internal_page_writes": n, "journal_still_there": jerr == nil, "lock_table": wr.observe(false).M}, wr.curReplay())
+		}
+		// the application rolls its transaction back and lets go; the release then completes
+		_ = pg2.JRbPage(1)
+		_ = pg2.JFinal()
+		pg2.EndJ()
+		c2.Close()
+		select {
+		case rerr := <-relDone:
+			if rerr != nil {
+				rep.Nonconf("replica (%s): ReleaseRemoteHaltLock: %v", mode, rerr)
+			}
+		case <-time.After(30 * time.Second):
+			rep.Violate("C11.no-hang", "hang/halt-release-with-open-transaction/"+mode, map[string]any{}, wr.curReplay())
+		}
+	}
 	if ex := rn.Node.Exits(); len(ex) > 0 {
 		rep.Violate("C11.no-exit", "exit/replica-halt-catch-up/"+mode, map[string]any{"codes": ex}, wr.curReplay())
 	}
